@@ -119,23 +119,25 @@ type c08 struct {
 	cur   *c08Step
 
 	// material for replays: taken from earlier *successful* exchanges
-	oldRevs    []types.V2FileContract // earlier committed revisions of the current contract (stale bases)
-	oldSigs    []types.Signature      // earlier renter revision signatures
-	oldChal    []types.Signature      // earlier challenge signatures (free/append)
-	oldRoots   *proto4.RPCSectorRootsRequest
-	oldFund    *proto4.RPCFundAccountsRequest
-	oldRepl    map[bool]*proto4.RPCReplenishAccountsRequest
-	foreign    types.PrivateKey
-	unknownID  types.FileContractID
-	prevIDs    []types.FileContractID       // contracts renewed away from
-	prev       []rhp.ContractRevision       // ... with their last revision
-	active     *rhp.ContractRevision        // the current contract while an old one is selected
-	stale      string                       // the host's current prices differ by this factor from the signed table in use
-	afterFault string                       // the running step follows a store fault of this label
-	injected   map[types.TransactionID]bool // transactions the renter itself put into the pool during the running step
-	fresh      []proto4.Account             // accounts allocated for the running overflow step
-	nfresh     int
-	baseAccts  int
+	oldRevs      []types.V2FileContract // earlier committed revisions of the current contract (stale bases)
+	oldSigs      []types.Signature      // earlier renter revision signatures
+	oldChal      []types.Signature      // earlier challenge signatures (free/append)
+	oldRoots     *proto4.RPCSectorRootsRequest
+	oldFund      *proto4.RPCFundAccountsRequest
+	oldRepl      map[bool]*proto4.RPCReplenishAccountsRequest
+	foreign      types.PrivateKey
+	unknownID    types.FileContractID
+	prevIDs      []types.FileContractID // contracts renewed away from
+	prev         []rhp.ContractRevision // ... with their last revision
+	active       *rhp.ContractRevision  // the current contract while an old one is selected
+	stale        string                 // the host's current prices differ by this factor from the signed table in use
+	afterFault   string                 // the running step follows a store fault of this label
+	afterRefusal string                 // the running step follows a refused request of this label
+	following    bool
+	injected     map[types.TransactionID]bool // transactions the renter itself put into the pool during the running step
+	fresh        []proto4.Account             // accounts allocated for the running overflow step
+	nfresh       int
+	baseAccts    int
 }
 
 func (c *c08) report(sig, what string, ev *rhplab.Event, detail map[string]any) {
@@ -905,6 +907,23 @@ func (c *c08) step(st c08Step) error {
 	if res.harness != nil {
 		return res.harness
 	}
+	// every handler has returned: a contract lock still held now is held for ever
+	if held := c.lab.Log.HeldLocks(); len(held) > 0 {
+		c.r.Eval()
+		c.aud.audit()
+		for id := range held {
+			c.lab.Log.ForgetLock(id)
+		}
+		what := "a well-formed RPC"
+		if st.Bad != "" {
+			what = "a refused request"
+			c.r.Count("bad_requests", 1)
+		}
+		c.report("contract-lock-left-held:"+st.RPC+":"+st.Bad, what+" left the contract locked although its handler has returned: every later RPC on the contract is refused as already locked", nil, map[string]any{"renter_error": errText(res.err), "contracts": len(held)})
+		c.lab.Mux.Forget(c.lab.Mux.Streams())
+		c.lab.Log.Trim(c.aud.seq)
+		return c.newContract()
+	}
 	post, err := c.snapshot()
 	if err != nil {
 		return inconclusive("post-snapshot: %v", err)
@@ -1011,12 +1030,33 @@ func (c *c08) step(st c08Step) error {
 		if debugAttempts {
 			fmt.Printf("bad %-40s -> %v\n", label, res.err)
 		}
+		if st.Bad != "not-revisable" && c.active == nil && !c.following {
+			// a refused request changes nothing: a well-formed RPC on the same
+			// contract is served right afterwards
+			c.lab.Mux.Forget(c.lab.Mux.Streams())
+			c.lab.Log.Trim(c.aud.seq)
+			c.following = true
+			c.afterRefusal = label
+			next := c.genGood(c.rng, "fund")
+			if len(c.steps)%3 == 0 {
+				next = c08Step{RPC: "append", Batch: []string{"new"}}
+			}
+			err := c.step(next)
+			c.following = false
+			return err
+		}
 	} else {
 		c.r.Count("good_requests_"+st.RPC, 1)
 		if n := c.lab.HostPanics() - panics0; n > 0 {
 			c.r.Count("handler_panics_on_good_requests", n)
 		}
 		switch {
+		case !res.success && c.afterRefusal != "":
+			c.report("rpc-refused-after-refusal:"+c.afterRefusal, "after a refused request a well-formed "+st.RPC+" on the same contract is not served: "+errText(res.err), nil, nil)
+		case res.success && c.afterRefusal != "":
+			c.r.Count("served_after_refusal", 1)
+			c.r.Count("served_after_refusal_"+refusalReason(c.afterRefusal), 1)
+			c.r.SetAdd("refusal_reasons_followed_up", c.afterRefusal)
 		case !res.success && c.afterFault != "":
 			c.report("rpc-after-store-fault-failed:"+c.afterFault, "after an RPC whose persisting call failed, an ordinary RPC on the same contract no longer succeeds from the stored revision: "+errText(res.err), nil, map[string]any{"stored": pre.State.Revision})
 		case !res.success && c.stale != "":
@@ -1033,6 +1073,7 @@ func (c *c08) step(st c08Step) error {
 		c.r.Distinct("stale-table:" + st.RPC + ":" + c.stale)
 	}
 	c.afterFault = ""
+	c.afterRefusal = ""
 	// after every commit: host state is the committed revision, and consensus accepts it
 	okCommits := 0
 	for _, ev := range commits {
@@ -1110,6 +1151,31 @@ func (c *c08) step(st c08Step) error {
 	c.lab.Mux.Forget(c.lab.Mux.Streams())
 	c.lab.Log.Trim(c.aud.seq)
 	return nil
+}
+
+// locksReleased reports a violation if a contract lock is still held at the
+// barrier (all handlers have returned) and forgets it.
+func (c *c08) locksReleased(label string) bool {
+	held := c.lab.Log.HeldLocks()
+	if len(held) == 0 {
+		return true
+	}
+	for id := range held {
+		c.lab.Log.ForgetLock(id)
+	}
+	c.report("contract-lock-left-held:"+label, "a contract lock is still held although every handler has returned", nil, map[string]any{"contracts": len(held)})
+	return false
+}
+
+// refusalReason is the corruption class of a label "rpc:bad" (family before the first dash).
+func refusalReason(label string) string {
+	if i := strings.IndexByte(label, ':'); i >= 0 {
+		label = label[i+1:]
+	}
+	if i := strings.IndexByte(label, '-'); i >= 0 {
+		return label[:i]
+	}
+	return label
 }
 
 func okCommitsOf(commits []rhplab.Event) (n int) {
@@ -1552,6 +1618,7 @@ func runC08(r *mon.Run, replay string) {
 	r.Floor("formations_confirmed", 2)
 	r.Floor("contender_rounds", 12)
 	r.Floor("store_faults_injected", 40)
+	r.Floor("served_after_refusal", 400)
 	r.Floor("settings_changes", 60)
 	r.Floor("commits_priced_by_older_signed_table", 150)
 	r.Floor("store_faults_changed_nothing", 40)
